@@ -194,7 +194,9 @@ def intOnDict (h : Heap) (hd : Handle) : Bool :=
   | _, _ => false
 
 def predOf (name : String) (h : Heap) : Val → Bool := fun v =>
-  let j := unfoldVal h 64 v
+  -- these predicates look at the kind / truthiness of the value only: two levels of unfolding decide them
+  -- (a deep unfolding of a store a broken implementation made cyclic would not end)
+  let j := unfoldVal h 2 v
   match name with
   | "truthy" => j.truthy
   | "none" => false
